@@ -51,10 +51,21 @@ def cases(tier, rng):
         kind = cards.pick(rng, cfg["kinds"])
         heavy = cards.pick(rng, ["total", "total", "light", "charm", "bottom", "charmlight"])
         if rel == "flav":
-            heavy = cards.pick(rng, ["total", "light"])
+            # (tagged observables too: the other quarks of the same charge - lighter or heavier than the tagged one - stay exchangeable)
+            heavy = cards.pick(rng, ["total", "light", "total", "light", "charm", "bottom"])
+            if heavy in ("charm", "bottom") and i % 2:
+                # make the tagged quark a massless one with heavier active quarks above it, at an order where the singlet channels exist
+                cfg["theory"].update(FNS="ZM-VFNS", PTO=max(2, min(cfg["theory"]["PTO"], 3)), PTODIS=max(2, min(cfg["theory"]["PTO"], 3)))
+                cfg["highq2"] = True
+                if kind_ok := [k_ for k_ in cfg["kinds"] if k_ in ("F2", "FL", "F3")]:
+                    cfg["kinds"] = kind_ok
         if rng.random() < 0.3:
             cfg["obs"]["TargetDIS"] = cards.pick(rng, ["neutron", "iron", "isoscalar"])
         pts = cards.rand_points(rng, g["xgrid"], n=2, q2lo=3.0, q2hi=1e4)
+        if cfg.pop("highq2", False):
+            for p_ in pts:
+                p_["Q2"] = cards.logu(rng, 2.0 * cfg["theory"]["mb"] ** 2 * cfg["theory"].get("kbThr", 1.0) ** 2, 2e4)
+            kind = cards.pick(rng, cfg["kinds"])
         if cfg.pop("span", False):
             pts[0]["Q2"], pts[1]["Q2"] = float(rng.uniform(4.0, 0.8 * cfg["theory"]["mb"] ** 2)), cards.logu(rng, 1.5 * cfg["theory"]["mb"] ** 2, 1e4)
         out.append(dict(id=f"c13-{i}", rel=rel, kind=kind, heavy=heavy, grid=g, points=pts, **cfg))
@@ -149,7 +160,8 @@ def run_case(case):
         for i, p in enumerate(pts):
             nf = nfref.nf_light(th, p["Q2"])
             r = out[name][i]
-            groups = [[q for q in (1, 3, 5) if q <= nf], [q for q in (2, 4, 6) if q <= nf]]
+            tagged = {"charm": 4, "bottom": 5, "top": 6}.get(case["heavy"])
+            groups = [[q for q in (1, 3, 5) if q <= nf and q != tagged], [q for q in (2, 4, 6) if q <= nf and q != tagged]]
             for o in r.orders:
                 v = np.asarray(r.orders[o][0])
                 for grp in groups:
